@@ -160,6 +160,14 @@ def run_sanitisers(c, prog):
 
 
 
+def _contains(t, sub):
+    if t == sub:
+        return True
+    if isinstance(t, (tuple, list)):
+        return any(_contains(x, sub) for x in t)
+    return False
+
+
 def run(c, prog):
     from . import C16 as _C16, C01 as _C01
     from sa import db as _dbm
@@ -257,69 +265,121 @@ def run(c, prog):
         c.ok(R, "no-ref-text")
     else:
         c.violation(R, "ref-text|" + ref_fmt[0][0], f"a Ref value (random u128) is formatted / compared on a serializer path: {ref_fmt[:3]}", ref_fmt[0][1], instance="no-ref-text")
-    # xml referents: map_id is a monotone counter with insert-if-absent
+    # xml referents: map_id is a monotone counter with insert-if-absent.  Decided on the symbolic value of the function
+    # (sa.sym, helpers inlined) over a symbolic `self` built from the struct definitions, in the two worlds `id already
+    # has a number` / `id has none`: which fields hold the table and the counter, what they are called and whether
+    # they sit in EmitState or in a helper struct is irrelevant.
     fn = prog.fn("rbx_xml::serializer::EmitState::<'db>::map_id")
+    from sa import sym as _sym, wire as _wire
 
-    def role(n):
-        n0 = core.strip(n)
-        if n0.get("k") == "LetExpr":
-            init = core.strip(n0["init"])
-            if init.get("k") == "MethodCall" and init["m"] == "get" and core.place_root(init["recv"]) == ("self", ["referent_map"]):
-                ps = core.pat_str(n0["pat"])
-                return "HIT" if "Some" in ps else ("!HIT" if "None" in ps else "?" + ps)
-            return "let:" + core.pat_str(n0["pat"])
-        if n0.get("k") == "MethodCall" and n0["m"] == "contains_key" and core.place_root(n0["recv"]) == ("self", ["referent_map"]):
-            return "HIT"
-        return "?" + core.fingerprint(n0, 4)
+    def sym_struct(ty, prefix, leaves, depth=0):
+        ty = (ty or "").lstrip("&").replace("mut ", "").strip()
+        base = ty.split("<")[0]
+        adt = prog.adts.get(base)
+        if adt is None or str(adt.get("kind")).lower() != "struct" or adt.get("crate") not in core.LIB_CRATES or depth > 3 or not adt.get("variants"):
+            leaves[prefix] = ty
+            return ("in", prefix)
+        return ("st", base, tuple((f["name"], sym_struct(f["ty"], prefix + "." + f["name"], leaves, depth + 1)) for f in adt["variants"][0]["fields"]))
 
-    def eff(n):
-        n0 = core.strip(n)
-        if n0.get("k") == "MethodCall" and n0["m"] == "insert" and core.place_root(n0["recv"]) == ("self", ["referent_map"]):
-            return "insert(id, next)"
-        if n0.get("k") == "AssignOp" and n0["op"] == "+=" and core.place_root(n0["l"]) == ("self", ["next_referent"]) and core.lit_value(n0["r"]) == 1:
-            return "next += 1"
-        if n0.get("k") in ("Assign", "AssignOp"):
-            return "write " + core.fingerprint(n0["l"], 3)
-        return "·"
-    tb = decision.Tabler(namer=role, effect_namer=eff)
-    t = {}
-    for k, v in decision.table(tb.paths(fn.body)).items():
-        cs = frozenset(("HIT", not val) if a == "!HIT" else (a, val) for a, val in k)
-        if any((a, not val) in cs for a, val in cs):
-            continue
-        t.setdefault(cs, set()).update(tuple(sorted(e for e in ef if e != "·" and not e.startswith("return"))) for ef, ex in v)
-    got = {k: sorted(v) for k, v in t.items()}
-    want = {frozenset({("HIT", True)}): [()], frozenset({("HIT", False)}): [("insert(id, next)", "next += 1")]}
-    ok, _d = decision.same_function(got, want)
-    # the inserted number is the counter's value before the increment
-    if ok:
-        order = []
-        val_ok = False
-        lets = {st["pat"].get("lid"): st for st in core.walk_lets(fn.body) if "init" in st and st["pat"].get("k") == "Binding"}
-        for n in core.walk_fn(fn):
-            if n.get("k") == "Let" or n.get("k") == "AssignOp" or (n.get("k") == "MethodCall" and n["m"] == "insert"):
-                pass
-        seq = []
-        for n in core.walk_fn(fn):
-            if n.get("k") == "AssignOp" and core.place_root(n["l"]) == ("self", ["next_referent"]):
-                seq.append(("inc", n))
-            if n.get("k") == "MethodCall" and n["m"] == "insert" and core.place_root(n["recv"]) == ("self", ["referent_map"]):
-                seq.append(("ins", n))
-        ins = [n for k_, n in seq if k_ == "ins"]
-        if len(ins) == 1:
-            a = core.strip(ins[0]["args"][1])
-            if core.place_root(a) == ("self", ["next_referent"]):
-                val_ok = [k_ for k_, _ in seq] == ["ins", "inc"]
-            elif a.get("lid") in lets and core.place_root(lets[a["lid"]]["init"]) == ("self", ["next_referent"]):
-                # the let precedes the increment in source order
-                sp_let = lets[a["lid"]].get("sp", "")
-                inc = [n for k_, n in seq if k_ == "inc"]
-                val_ok = bool(inc) and core.loc(lets[a["lid"]]) <= core.loc(inc[0])
-        ok = val_ok
-    if ok:
-        c.ok(R, "xml:map_id-counter")
+    def resolve(t, oracle):
+        """choose the alternative of every phi under the oracle"""
+        if not isinstance(t, tuple) or not t:
+            return t
+        if t[0] == "phi":
+            for cnd, alt in t[1]:
+                if _sym.eval_bool(cnd, oracle):
+                    return resolve(alt, oracle)
+            raise _sym.Undetermined("no alternative of a phi holds")
+        return tuple(resolve(x, oracle) if isinstance(x, tuple) else ([resolve(y, oracle) for y in x] if isinstance(x, list) else x) for x in t)
+
+    def strip_ref(t):
+        while isinstance(t, tuple) and t and t[0] in ("deref", "ref", "copy", "clone") and len(t) >= 2:
+            t = t[1]
+        return t
+    inst = "xml:map_id-counter"
+    why = None
+    try:
+        leaves = {}
+        selfp = [p_ for p_ in fn.params if p_["name"] == "self"]
+        idp = [p_ for p_ in fn.params if (p_.get("ty") or "").endswith("referent::Ref")]
+        if len(selfp) != 1 or len(idp) != 1:
+            raise core.AnchorMissing("map_id: expected (&mut self, id: Ref)")
+        S = sym_struct(selfp[0]["ty"], "self", leaves)
+        maps = [k for k, ty in leaves.items() if re.search(r"Map<rbx_types::referent::Ref, u32", ty)]
+        ctrs = [k for k, ty in leaves.items() if ty == "u32"]
+        if len(maps) != 1 or len(ctrs) != 1:
+            raise _sym.Unsupported(f"expected one Ref -> u32 table and one u32 counter in the writer state, found {maps} / {ctrs}")
+        M, C0 = ("in", maps[0]), ("in", ctrs[0])
+        ID = ("in", "id")
+
+        def p_ins(I, n, path, arg_nodes, env):
+            args = [I.eval(a, env) for a in arg_nodes]
+            I.emit(("sink", "insert", ("tup", tuple(args)), core.loc(n)))
+            return _sym.var(_sym.NONE)
+        env = {p_["lid"]: (S if p_["name"] == "self" else (ID if p_ is idp[0] else ("in", p_["name"]))) for p_ in fn.params}
+        I, val, ex = _wire.run_region(prog, fn.body, env, [(re.compile(r"Map::<.*>::insert$|Map<.*>::insert$"), p_ins)], depth=5)
+        final_self = env[selfp[0]["lid"]]
+
+        def lookups(t, out):
+            if isinstance(t, tuple) and t:
+                if t[0] == "app" and isinstance(t[1], str) and t[1].endswith(("::get", "::contains_key", "::get_mut")) and len(t[2]) >= 2 and strip_ref(t[2][0]) == M and strip_ref(t[2][1]) == ID:
+                    out.append(t)
+                for x in t:
+                    lookups(x, out)
+            elif isinstance(t, list):
+                for x in t:
+                    lookups(x, out)
+            return out
+        G = lookups(list(I.events) + [val, final_self], [])
+        if not G:
+            raise _sym.Unsupported("map_id does not look `id` up in the table")
+
+        def leaf(t, path):
+            for seg in path.split(".")[1:]:
+                if not (isinstance(t, tuple) and t and t[0] == "st"):
+                    return None
+                t = dict(t[2]).get(seg)
+            return t
+        for hit in (True, False):
+            def oracle(t, hit=hit):
+                if t[0] == "is" and t[1] in G:
+                    return hit if t[2] == _sym.SOME else ((not hit) if t[2] == _sym.NONE else None)
+                if t[0] == "app" and t in G and t[1].endswith("contains_key"):
+                    return hit
+                return None
+            evs, x = _sym.taken_path(I.events, oracle)
+            sinks = [e for e in evs if e[0] == "sink"]
+            v = strip_ref(resolve(val, oracle)) if val is not None else None
+            st = resolve(final_self, oracle)
+            others = {k: leaf(st, k) for k in leaves if k != ctrs[0]}
+            if any(others[k] != ("in", k) for k in others):
+                why = f"a state field other than the counter changes ({[k for k in others if others[k] != ('in', k)]})"
+                break
+            if hit:
+                if sinks or leaf(st, ctrs[0]) != C0:
+                    why = "a referent that already has a number changes the table or the counter"
+                    break
+                if not (isinstance(v, tuple) and any(g in (v,) or _contains(v, g) for g in G)):
+                    why = f"for a referent that already has a number the function returns {_sym.term_str(v, 4)}, not the stored number"
+                    break
+            else:
+                ins = [e[2][1] for e in sinks if e[1] == "insert"]
+                if len(ins) != 1 or strip_ref(ins[0][0]) != M or strip_ref(ins[0][1]) != ID or strip_ref(ins[0][2]) != C0:
+                    why = f"a new referent is not filed as table[id] = counter (inserts: {[_sym.term_str(('tup', a), 4) for a in ins]})"
+                    break
+                nxt = leaf(st, ctrs[0])
+                if not (isinstance(nxt, tuple) and nxt[0] == "op" and nxt[1] == "+" and C0 in nxt[2:] and ("c", 1) in nxt[2:]):
+                    why = f"after a new referent the counter is {_sym.term_str(nxt, 4)}, not counter + 1"
+                    break
+                if v != C0:
+                    why = f"a new referent gets {_sym.term_str(v, 4)}, not the counter's value before the increment"
+                    break
+    except (_sym.Unsupported, _sym.Undetermined, core.AnalysisError) as e:
+        why = f"outside the symbolic model: {e}"
+    if why is None:
+        c.ok(R, inst)
     else:
-        c.violation(R, "xml|map_id", f"EmitState::map_id is no longer `get or (insert next_referent; next_referent += 1)`: XML referents would not be dense, traversal-ordered numbers (decision table {got})", fn.sp, instance="xml:map_id-counter")
+        c.violation(R, "xml|map_id", f"EmitState::map_id is no longer `the number already given to the referent, else (table[id] = counter; counter += 1; that number)`: {why} — XML referents would not be dense numbers in order of first use", fn.sp, instance=inst)
 
     R = "C07.fix"
     c.rule(R, "the readers rebuild child order without consulting hash order: binary finish() is a FIFO over PRNT order, no hash iteration in the decoders' tree construction")
